@@ -250,17 +250,31 @@ def check_ordering_function(chk, fb, fbody, sorts):
                 chk.violation("R01.1", "direction:%s" % key, "%s sorts ascending in the priority key: lower priorities would be applied first" % name, loc(t["span"]))
             m = re.match(r"^call:(.*)\(_\)$", c["key"])
             kpath = m.group(1) if m else None
+            kfn_args = None
             if kpath is None or kpath not in closures:
-                chk.unrecognised("R01.2", "key:%s" % key, "key function of the comparator is not a local closure: %s" % c["key"][:80], loc(t["span"]))
-                continue
+                # the key may be a private function next to the ordering function: `sort_key(ops, nodes, i)`
+                m2 = re.match(r"^([\w:<>{}#']+)\((.*)\)$", c["key"])
+                fbody_ = fb.bodies.get(m2.group(1)) if m2 else None
+                parts_ = [x.strip() for x in m2.group(2).split(",")] if m2 else []
+                if fbody_ is not None and fbody_["kind"] == "Fn" and fbody_["arg_count"] == len(parts_) and parts_.count("_") == 1 and all(re.match(r"^\w+$", x) for x in parts_):
+                    kpath = m2.group(1)
+                    kfn_args = [Sym("i") if x == "_" else Sym(x) for x in parts_]
+                else:
+                    chk.unrecognised("R01.2", "key:%s" % key, "key function of the comparator is not a local closure: %s" % c["key"][:80], loc(t["span"]))
+                    continue
             reverse_wrapped = False
         else:
             # sort_by_key / sort_by_cached_key: ascending in the key the closure returns; descending iff wrapped in Reverse
             kpath = comp.path
             reverse_wrapped = True
-        kval = closures[kpath]
         kbody = fb.bodies[kpath]
-        ps = Interp(fb, _KeyPolicy()).run(kbody, [kval, Sym("i")])
+        if meth.endswith("_by") and kfn_args is not None:
+            kval = None
+            krun = list(kfn_args)
+        else:
+            kval = closures[kpath]
+            krun = [kval, Sym("i")]
+        ps = Interp(fb, _KeyPolicy()).run(kbody, krun)
         bad = [p for p in ps if p.status not in ("return", "unreachable")]
         if bad and all("revisited" in (p.note or "") for p in bad):
             # the left scan written as a loop (`for left in ops[..i].iter().rev() { if .. { continue } return .. } true`):
@@ -269,7 +283,7 @@ def check_ordering_function(chk, fb, fbody, sorts):
 
             class _KW(_KeyPolicy):
                 loop_mode = "widen"
-            wps = Interp(fb, _KW()).run(kbody, [kval, Sym("i")])
+            wps = Interp(fb, _KW()).run(kbody, krun)
             got, why_ = _loops.search_loop_paths(wps)
             if got is not None:
                 ps, bad = got, []
